@@ -211,6 +211,8 @@ func rep(t *rt.Thread, c *rt.GoCont) (rt.Cont, error) {
 		return nil, errors.New("rep causes overflow")
 	}
 	t.RequireBytes(n*len(s) + (n-1)*len(sep))
+	// The loop below runs n times even if s and sep are empty
+	t.RequireCPU(uint64(n))
 	builder.Grow(sz)
 	builder.Write(s)
 	for {
